@@ -20,7 +20,7 @@ var c20Exprs = []string{"a", "b", "a_1", "a_2", "b_1", "a_1_1", "mean(a)", "mean
 	// names that are not plain words: format directives, blanks, quotes, non-ASCII
 	"\"usage%\"", "\"a%%\"", "\"%d\"", "\"%s_%d\"", "\"a b\"", "\"a\\\"b\"", "\"é\"", "mean(\"usage%\")", "\"usage%\" + 1", "top(\"100%\", \"%v\", 2)",
 	// names that are "time" only to a reader who ignores case or parentheses: ordinary fields
-	"\"Time\"", "TIME", "tIme", "(time)", "time::integer", "\"time \""}
+	"\"Time\"", "TIME", "tIme", "(time)", "time::integer", "\"time \"", "time", "time"}
 var c20Aliases = []string{"", "", "", "a", "b", "a_1", "a_2", "b_1", "mean", "time", "x", "top", "a_b", "mean_1", "_1", "a_1_1", "usage%", "%d", "a%%_1"}
 
 func c20Names(q *influxql.SelectStatement) (names []string, pn interface{}) {
@@ -139,12 +139,12 @@ func c20One(o *out, text string, omitTime bool, timeAlias string, tag string) {
 				o.fail("", fmt.Sprintf("RewriteTimeFields of %q removes nothing and sets the time alias %q", text, c.TimeAlias), rp)
 			} else if c.TimeAlias != "" && !contains(removedAliases, c.TimeAlias) {
 				o.fail("", fmt.Sprintf("RewriteTimeFields of %q sets the time alias %q, which no time field has", text, c.TimeAlias), rp)
-			} else if cn, pn := c20Names(c); pn == nil && len(cn) > 0 {
+			} else if cn, pn := c20Names(c); pn == nil {
 				want := "time"
 				if c.TimeAlias != "" {
 					want = c.TimeAlias
 				}
-				if cn[0] != want || len(cn) != 1+len(c.Fields)+extra {
+				if len(cn) != 1+len(c.Fields)+extra || cn[0] != want {
 					o.fail("", fmt.Sprintf("after RewriteTimeFields, ColumnNames of %q is %q: expected %q first and %d names", text, cn, want, 1+len(c.Fields)+extra), rp)
 				}
 			}
@@ -222,6 +222,10 @@ func propC20(o *out, r *rng, thorough bool) {
 		}
 	}
 	rec(nil)
+	for _, w := range []string{"SELECT time FROM m", "SELECT time AS ts FROM m", "SELECT time AS ts INTO dst FROM m", "SELECT time, time FROM m", "SELECT time AS a, time, v FROM m", "SELECT time, v, w FROM m", "SELECT v, time AS t, w FROM m"} {
+		c20One(o, w, false, "", "time-field")
+		c20One(o, w, true, "", "time-field")
+	}
 	// the time column's alias, verbatim: every spelling, next to fields with and without the same name
 	for _, ta := range []string{"Time", "TIME", "tIme", "time", "t", "", "a", "time_1"} {
 		for _, fs := range []string{"a", "a, \"time\"", "a AS \"time\", b AS \"Time\"", "mean(a), a", "top(a, b, 2)"} {
